@@ -446,6 +446,13 @@ func (il *inliner) process(fn *ssa.Function) {
 	for il.elideStructCopy(fn) {
 		il.finish(fn)
 	}
+	for il.liftAlloc(fn) {
+		il.finish(fn)
+	}
+	for il.threadOne(fn) || il.foldConstIf(fn) || il.fuseOne(fn) {
+		il.nThread++
+		il.finish(fn)
+	}
 	for il.splitReturn(fn) {
 		il.finish(fn)
 	}
@@ -1454,6 +1461,9 @@ func (il *inliner) elideStructCopy(fn *ssa.Function) bool {
 				continue
 			}
 			replaceUses(fn, tmp, dst)
+			if da, isAlloc := dst.(*ssa.Alloc); isAlloc {
+				il.inlAllocs[da] = true // now holds what the helper built: a candidate for field-wise promotion
+			}
 			drop := map[ssa.Instruction]bool{tmp: true, load: true, st: true}
 			for _, bb := range fn.Blocks {
 				var out []ssa.Instruction
@@ -1638,172 +1648,242 @@ func (il *inliner) liftAlloc(fn *ssa.Function) bool {
 	for _, b0 := range fn.Blocks {
 		for _, in0 := range b0.Instrs {
 			a, ok := in0.(*ssa.Alloc)
-			if !ok || !il.inlAllocs[a] || a.Heap {
+			if !ok || !il.inlAllocs[a] {
 				continue
 			}
-			good := true
-			for _, r := range *a.Referrers() {
-				switch r := r.(type) {
-				case *ssa.Store:
-					if r.Addr != ssa.Value(a) || r.Val == ssa.Value(a) {
-						good = false
-					}
-				case *ssa.UnOp:
-					if r.Op != token.MUL {
-						good = false
-					}
-				default:
-					good = false
-				}
+			if !a.Heap && il.liftScalar(fn, a) {
+				return true
 			}
-			if !good {
-				continue
+			if il.liftStruct(fn, a) {
+				return true
 			}
-			T := a.Type().(*types.Pointer).Elem()
-			repl := map[ssa.Value]ssa.Value{}
-			resolve := func(v ssa.Value) ssa.Value {
-				for {
-					nv, ok := repl[v]
-					if !ok {
-						return v
-					}
-					v = nv
-				}
-			}
-			defEnd := map[*ssa.BasicBlock]ssa.Value{}
-			defStart := map[*ssa.BasicBlock]ssa.Value{}
-			type pend struct {
-				load *ssa.UnOp
-				b    *ssa.BasicBlock
-			}
-			var pending []pend
-			drop := map[ssa.Instruction]bool{a: true}
-			for _, b := range fn.Blocks {
-				var cur ssa.Value
-				for _, in := range b.Instrs {
-					switch x := in.(type) {
-					case *ssa.Alloc:
-						if x == a {
-							cur = zeroValue(T)
-						}
-					case *ssa.Store:
-						if x.Addr == ssa.Value(a) {
-							cur = x.Val
-							drop[in] = true
-						}
-					case *ssa.UnOp:
-						if x.Op == token.MUL && x.X == ssa.Value(a) {
-							drop[in] = true
-							if cur != nil {
-								repl[x] = cur
-							} else {
-								pending = append(pending, pend{x, b})
-							}
-						}
-					}
-				}
-				if cur != nil {
-					defEnd[b] = cur
-				}
-			}
-			var created []*ssa.Phi
-			var readStart, readEnd func(b *ssa.BasicBlock) ssa.Value
-			readEnd = func(b *ssa.BasicBlock) ssa.Value {
-				if v, ok := defEnd[b]; ok {
-					return resolve(v)
-				}
-				v := readStart(b)
-				defEnd[b] = v
-				return v
-			}
-			readStart = func(b *ssa.BasicBlock) ssa.Value {
-				if v, ok := defStart[b]; ok {
-					return resolve(v)
-				}
-				switch len(b.Preds) {
-				case 0:
-					v := zeroValue(T)
-					defStart[b] = v
-					return v
-				case 1:
-					v := readEnd(b.Preds[0])
-					defStart[b] = v
-					return v
-				}
-				np := &ssa.Phi{Comment: a.Comment}
-				setRegType(np, T)
-				setRegPos(np, a.Pos())
-				setInstrBlock(np, b)
-				defStart[b] = np
-				created = append(created, np)
-				il.contPhis[np] = true
-				for _, pr := range b.Preds {
-					np.Edges = append(np.Edges, readEnd(pr))
-				}
-				var only ssa.Value
-				trivial := true
-				for _, e := range np.Edges {
-					e = resolve(e)
-					if e == ssa.Value(np) {
-						continue
-					}
-					if only == nil {
-						only = e
-					} else if only != e {
-						trivial = false
-					}
-				}
-				if trivial && only != nil {
-					repl[np] = only
-					return only
-				}
-				return np
-			}
-			for _, pd := range pending {
-				repl[pd.load] = readStart(pd.b)
-			}
-			for _, np := range created {
-				if _, gone := repl[np]; gone {
-					continue
-				}
-				for k := range np.Edges {
-					np.Edges[k] = resolve(np.Edges[k])
-				}
-				np.Block().Instrs = append([]ssa.Instruction{np}, np.Block().Instrs...)
-			}
-			for _, bb := range fn.Blocks {
-				var out []ssa.Instruction
-				for _, x := range bb.Instrs {
-					if !drop[x] {
-						out = append(out, x)
-					}
-				}
-				bb.Instrs = out
-			}
-			var rands []*ssa.Value
-			for _, bb := range fn.Blocks {
-				for _, x := range bb.Instrs {
-					rands = x.Operands(rands[:0])
-					for _, r := range rands {
-						if *r != nil {
-							if nv := resolve(*r); nv != *r {
-								*r = nv
-							}
-						}
-					}
-				}
-			}
-			var locals []*ssa.Alloc
-			for _, l := range fn.Locals {
-				if l != a {
-					locals = append(locals, l)
-				}
-			}
-			fn.Locals = locals
-			return true
 		}
 	}
 	return false
+}
+
+func (il *inliner) liftScalar(fn *ssa.Function, a *ssa.Alloc) bool {
+	stores := map[ssa.Instruction]ssa.Value{}
+	loads := map[ssa.Instruction]bool{}
+	for _, r := range *a.Referrers() {
+		switch r := r.(type) {
+		case *ssa.Store:
+			if r.Addr != ssa.Value(a) || r.Val == ssa.Value(a) {
+				return false
+			}
+			stores[r] = r.Val
+		case *ssa.UnOp:
+			if r.Op != token.MUL {
+				return false
+			}
+			loads[r] = true
+		default:
+			return false
+		}
+	}
+	il.promote(fn, a, a.Type().(*types.Pointer).Elem(), stores, loads, a.Comment)
+	dropInstrs(fn, map[ssa.Instruction]bool{a: true})
+	dropLocal(fn, a)
+	return true
+}
+
+// liftStruct: a struct that came with an inlined body (a parameter object, a small state type introduced by a
+// refactoring) and never escapes — it is only accessed field by field — is replaced by one register per field.
+func (il *inliner) liftStruct(fn *ssa.Function, a *ssa.Alloc) bool {
+	st, ok := a.Type().(*types.Pointer).Elem().Underlying().(*types.Struct)
+	if !ok {
+		return false
+	}
+	type fieldUse struct {
+		stores map[ssa.Instruction]ssa.Value
+		loads  map[ssa.Instruction]bool
+	}
+	fields := map[int]*fieldUse{}
+	drop := map[ssa.Instruction]bool{a: true}
+	for _, r := range *a.Referrers() {
+		fa, ok := r.(*ssa.FieldAddr)
+		if !ok || fa.X != ssa.Value(a) {
+			return false
+		}
+		drop[fa] = true
+		fu := fields[fa.Field]
+		if fu == nil {
+			fu = &fieldUse{map[ssa.Instruction]ssa.Value{}, map[ssa.Instruction]bool{}}
+			fields[fa.Field] = fu
+		}
+		for _, r2 := range *fa.Referrers() {
+			switch x := r2.(type) {
+			case *ssa.Store:
+				if x.Addr != ssa.Value(fa) || x.Val == ssa.Value(fa) {
+					return false
+				}
+				fu.stores[x] = x.Val
+			case *ssa.UnOp:
+				if x.Op != token.MUL {
+					return false
+				}
+				fu.loads[x] = true
+			default:
+				return false // address of a field taken, sub-field access, call on it: the struct is not a plain record here
+			}
+		}
+	}
+	if len(fields) == 0 {
+		return false
+	}
+	for k, fu := range fields {
+		il.promote(fn, a, st.Field(k).Type(), fu.stores, fu.loads, a.Comment+"."+st.Field(k).Name())
+	}
+	dropInstrs(fn, drop)
+	dropLocal(fn, a)
+	return true
+}
+
+func dropInstrs(fn *ssa.Function, drop map[ssa.Instruction]bool) {
+	for _, bb := range fn.Blocks {
+		var out []ssa.Instruction
+		for _, x := range bb.Instrs {
+			if !drop[x] {
+				out = append(out, x)
+			}
+		}
+		bb.Instrs = out
+	}
+}
+
+func dropLocal(fn *ssa.Function, a *ssa.Alloc) {
+	var locals []*ssa.Alloc
+	for _, l := range fn.Locals {
+		if l != a {
+			locals = append(locals, l)
+		}
+	}
+	fn.Locals = locals
+}
+
+// promote replaces one memory variable — zero at the allocation `at`, written by the instructions of stores, read by the
+// instructions of loads — by SSA values (on-demand phi placement, Braun et al.); the loads and stores are removed.
+func (il *inliner) promote(fn *ssa.Function, at ssa.Instruction, T types.Type, stores map[ssa.Instruction]ssa.Value, loads map[ssa.Instruction]bool, comment string) {
+	repl := map[ssa.Value]ssa.Value{}
+	resolve := func(v ssa.Value) ssa.Value {
+		for {
+			nv, ok := repl[v]
+			if !ok {
+				return v
+			}
+			v = nv
+		}
+	}
+	defEnd := map[*ssa.BasicBlock]ssa.Value{}
+	defStart := map[*ssa.BasicBlock]ssa.Value{}
+	type pend struct {
+		load ssa.Value
+		b    *ssa.BasicBlock
+	}
+	var pending []pend
+	drop := map[ssa.Instruction]bool{}
+	for _, b := range fn.Blocks {
+		var cur ssa.Value
+		for _, in := range b.Instrs {
+			if in == at {
+				cur = zeroValue(T)
+			}
+			if v, isStore := stores[in]; isStore {
+				cur = v
+				drop[in] = true
+			}
+			if loads[in] {
+				drop[in] = true
+				if cur != nil {
+					repl[in.(ssa.Value)] = cur
+				} else {
+					pending = append(pending, pend{in.(ssa.Value), b})
+				}
+			}
+		}
+		if cur != nil {
+			defEnd[b] = cur
+		}
+	}
+	var created []*ssa.Phi
+	var readStart, readEnd func(b *ssa.BasicBlock) ssa.Value
+	readEnd = func(b *ssa.BasicBlock) ssa.Value {
+		if v, ok := defEnd[b]; ok {
+			return resolve(v)
+		}
+		v := readStart(b)
+		defEnd[b] = v
+		return v
+	}
+	readStart = func(b *ssa.BasicBlock) ssa.Value {
+		if v, ok := defStart[b]; ok {
+			return resolve(v)
+		}
+		switch len(b.Preds) {
+		case 0:
+			v := zeroValue(T)
+			defStart[b] = v
+			return v
+		case 1:
+			v := readEnd(b.Preds[0])
+			defStart[b] = v
+			return v
+		}
+		np := &ssa.Phi{Comment: comment}
+		setRegType(np, T)
+		setRegPos(np, at.Pos())
+		setInstrBlock(np, b)
+		defStart[b] = np
+		created = append(created, np)
+		il.contPhis[np] = true
+		for _, pr := range b.Preds {
+			np.Edges = append(np.Edges, readEnd(pr))
+		}
+		var only ssa.Value
+		trivial := true
+		for _, e := range np.Edges {
+			e = resolve(e)
+			if e == ssa.Value(np) {
+				continue
+			}
+			if only == nil {
+				only = e
+			} else if only != e {
+				trivial = false
+			}
+		}
+		if trivial && only != nil {
+			repl[np] = only
+			return only
+		}
+		return np
+	}
+	for _, pd := range pending {
+		repl[pd.load] = readStart(pd.b)
+	}
+	for _, np := range created {
+		if _, gone := repl[np]; gone {
+			continue
+		}
+		for k := range np.Edges {
+			np.Edges[k] = resolve(np.Edges[k])
+		}
+		np.Block().Instrs = append([]ssa.Instruction{np}, np.Block().Instrs...)
+	}
+	dropInstrs(fn, drop)
+	var rands []*ssa.Value
+	for _, bb := range fn.Blocks {
+		for _, x := range bb.Instrs {
+			rands = x.Operands(rands[:0])
+			for _, r := range rands {
+				if *r != nil {
+					if nv := resolve(*r); nv != *r {
+						*r = nv
+					}
+				}
+			}
+		}
+	}
 }
 
 // closureifyOne: `go c.helper(x)` and `defer c.helper(x)` with an unknown private helper become `go func() { … }()` /
